@@ -71,9 +71,18 @@ PairOK ==
     LET st == D.states[i]
         m  == M(ep, PrepK(KOf(D)), s)
     IN
-    /\ (st.d <=> s = DEAD)          \/ Report("dead", <<st.d, s>>)
+    \* an implementation state that is dead although the search must go on is a defect;
+    \* one that is still alive where the specification has given up (and never matches
+    \* again: checked by `ismatch` on all its successors) only costs time: DRIFT
+    /\ (st.d => s = DEAD)           \/ Report("dead", <<st.d, s>>)
+    /\ (s = DEAD => st.d)           \/ Report("drift-dead", <<st.d, s>>)
     /\ (st.ms <=> m # <<>>)          \/ Report("ismatch", <<st.ms, m>>)
-    /\ (st.ms => st.m = m)           \/ Report("matchlist", <<st.m, m>>)
+    \* standard semantics: the whole list, in order (C03 fixes the order of overlapping
+    \* matches); leftmost semantics: only the first entry is ever reported by a search,
+    \* the rest must be valid identifiers (LocalOK) - a different tail is DRIFT
+    /\ (st.ms /\ m # <<>> => (IF KOf(D) = "std" \/ st.m = <<>> THEN st.m = m ELSE Head(st.m) = Head(m)))
+                                     \/ Report("matchlist", <<st.m, m>>)
+    /\ (st.ms /\ m # <<>> => st.m = m) \/ Report("drift-matchtail", <<st.m, m>>)
     \* is_start is not fixed by any listed property (a DFA with a single start
     \* kind flags its dead state as the missing start state): DRIFT only
     /\ ((s = Root => st.st) /\ (st.st => s = Root \/ s = DEAD))
